@@ -245,8 +245,16 @@ func (w *Worker) intrinsic(fn *ssa.Function, args []Val) (Val, bool) {
 		}
 		return Tuple{ts.Const(64, uint64(s.Len)), Iface{}}, true
 	case "(*sync.Pool).Get":
-		// p.New() if set, else nil
+		// the item most recently Put into this pool, if any (what a single goroutine observes
+		// natively when no GC intervenes, and the behaviour that exposes stale state in recycled
+		// objects); otherwise p.New() if set, else nil
 		p := args[0].(Ptr)
+		pk := fmt.Sprintf("%d:%d", p.Obj, p.Off)
+		if items := w.syncPools[pk]; len(items) > 0 {
+			it := items[len(items)-1]
+			w.syncPools[pk] = items[:len(items)-1]
+			return it, true
+		}
 		pt := fn.Signature.Recv().Type().Underlying().(*types.Pointer).Elem()
 		st := pt.Underlying().(*types.Struct)
 		for i := 0; i < st.NumFields(); i++ {
@@ -260,6 +268,12 @@ func (w *Worker) intrinsic(fn *ssa.Function, args []Val) (Val, bool) {
 		}
 		return Iface{}, true
 	case "(*sync.Pool).Put":
+		p := args[0].(Ptr)
+		pk := fmt.Sprintf("%d:%d", p.Obj, p.Off)
+		if w.syncPools == nil {
+			w.syncPools = map[string][]Val{}
+		}
+		w.syncPools[pk] = append(w.syncPools[pk], args[1])
 		return nil, true
 	case "(*sync.Mutex).Lock", "(*sync.Mutex).Unlock", "(*sync.RWMutex).Lock", "(*sync.RWMutex).Unlock", "(*sync.RWMutex).RLock", "(*sync.RWMutex).RUnlock":
 		return nil, true
@@ -552,9 +566,12 @@ func (w *Worker) poolIntrinsic(full string, fn *ssa.Function, args []Val) (Val, 
 		o.Tag = "pool"
 		return Ptr{o.ID, 0}, true
 	case "(*github.com/gobwas/pool.Pool).Get":
-		// generic pool used by wsutil.writers (pool.New(128, 65536)): modelled as always empty
-		// (Get misses); the returned size is the size class as the real mapping computes it
+		// generic pool used by wsutil.writers (pool.New(128, 65536)): size classes are the powers
+		// of two in [128, 65536]; Get returns the item most recently Put into the class (what a
+		// single goroutine observes natively), nil when the class is empty or does not exist; the
+		// returned size is the class as the real mapping computes it
 		n := ci(args[1])
+		class := false
 		if n <= 65536 {
 			p := 1
 			for p < n {
@@ -562,10 +579,27 @@ func (w *Worker) poolIntrinsic(full string, fn *ssa.Function, args []Val) (Val, 
 			}
 			if p >= 128 {
 				n = p
+				class = true
+			}
+		}
+		if class {
+			pk := fmt.Sprintf("gpool:%d:%d", args[0].(Ptr).Obj, n)
+			if items := w.syncPools[pk]; len(items) > 0 {
+				it := items[len(items)-1]
+				w.syncPools[pk] = items[:len(items)-1]
+				return Tuple{it, ts.Const(64, uint64(n))}, true
 			}
 		}
 		return Tuple{Iface{}, ts.Const(64, uint64(n))}, true
 	case "(*github.com/gobwas/pool.Pool).Put":
+		n := ci(args[2])
+		if n >= 128 && n <= 65536 && n&(n-1) == 0 {
+			if w.syncPools == nil {
+				w.syncPools = map[string][]Val{}
+			}
+			pk := fmt.Sprintf("gpool:%d:%d", args[0].(Ptr).Obj, n)
+			w.syncPools[pk] = append(w.syncPools[pk], args[1])
+		}
 		return nil, true
 	case "github.com/gobwas/pool/pbufio.GetReader":
 		n := ci(args[1])
